@@ -4,7 +4,7 @@
    the seed event of Value.Pull, together with what came back.  Non-mutation of the message read
    and of the mask is checked by the harness on deep copies (Directs). *)
 From SC Require Import Base.Prelude Msg.Msg Msg.Schema Msg.Path Msg.FmUtils Msg.Tagged Masks.Get Masks.Aliasing
-  Gen.Schema.
+  Masks.ChangeFilter Masks.ChangeAlias Gen.Schema.
 
 Inductive c06case :=
 | KRead (op : Z)             (* 0 FilterClone 1 Filter 2 Value.Get 3 Collection.List 4 Value.Pull seed *)
@@ -18,7 +18,17 @@ Inductive c06case :=
 | KAlias (ty : string) (m : mask) (v : value)
          (shared : Z)        (* message structs (pointers) of the result of FilterClone that are structs of the
                                 message passed in *)
-         (same_root : bool). (* the result IS the message passed in *)
+         (same_root : bool)  (* the result IS the message passed in *)
+| KEvent (kind : Z)          (* ChangeType of a change delivered by Collection.Pull WITHOUT backpressure: 1 ADD
+                                2 UPDATE 3 REMOVE 4 REPLACE (only the merge stage makes those) *)
+         (ty : string) (m : mask)
+         (sold snew : option value)   (* what was stored before / after (None = absent), from the writes' results *)
+         (oold onew : option value)   (* OldValue / NewValue of the delivered change (None = nil) *)
+| KFan (ty : string) (ms : list mask) (* one published change taken, unmerged, by several subscriptions without
+                                         backpressure whose masks these are *)
+       (kind : Z) (sold snew : option value)
+       (distinct : bool).            (* the CollectionChange structs (pointers) the subscriptions were handed are
+                                         pairwise different *)
 
 Definition agrees (c : c06case) : bool :=
   match c with
@@ -31,6 +41,17 @@ Definition agrees (c : c06case) : bool :=
       match filter_clone_t the_schema ty m (count t) t with
       | TOk r => (shared =? shared_nodes r t) && Bool.eqb same_root (root_id r =? root_id t)
       | TPanic => false
+      end
+  | KEvent kind ty m sold snew oold onew =>
+      match change_filter the_schema ty m (mkV kind sold snew) with
+      | Some c => vchange_eqb c (mkV kind oold onew)
+      | None => false
+      end
+  | KFan ty ms kind sold snew distinct =>
+      (* the ownership model (Masks/ChangeAlias.v): every subscription is handed its own struct *)
+      match fan_out the_schema ty ms (mkH 1 (fun q => if q =? 0 then Some (mkV kind sold snew) else None)) 0 with
+      | Some (_, ds) => Bool.eqb distinct (nodupb Z.eqb ds)
+      | None => false
       end
   end.
 
@@ -56,6 +77,15 @@ Definition C06_ok (c : c06case) : bool :=
       (* sharing is not a violation by itself (mutation of the message read is: Directs read-mutated);
          the observation is there to tie Masks/Aliasing.v to the code: [agrees] *)
       true
+  | KEvent kind ty m sold snew oold onew =>
+      (* whatever the kind: each delivered value is the projection of the stored one (nil stays nil) *)
+      if mask_segs_ok m then vchange_eqb (mkV kind oold onew) (change_projection m (mkV kind sold snew))
+      else Bool.eqb (is_some oold) (is_some sold) && Bool.eqb (is_some onew) (is_some snew)
+  | KFan _ _ _ _ _ _ =>
+      (* sharing a struct is not a violation by itself (a value that is not the projection is: KEvent; a struct
+         that changes after delivery is: Direct event-mutated-after-delivery); the observation ties
+         Masks/ChangeAlias.v to the code: [agrees] *)
+      true
   end.
 
 (* hypotheses of the theorems: the message read is a tree of its type *)
@@ -63,6 +93,8 @@ Definition C06_guard (c : c06case) : bool :=
   match c with
   | KRead _ ty _ _ v _ _ => conforms the_schema ty v
   | KAlias ty _ v _ _ => conforms the_schema ty v
+  | KEvent _ ty _ sold snew _ _ => vconforms the_schema ty (mkV 0 sold snew)
+  | KFan ty _ _ sold snew _ => vconforms the_schema ty (mkV 0 sold snew)
   end.
 
 Definition judge (c : c06case) : Z :=
